@@ -76,6 +76,7 @@ access(all) contract World {
     }
 
     access(all) resource interface RI {
+        access(all) event ResourceDestroyed(tag: String = "ri", rid: Int = self.id)
         access(all) let id: Int
         access(all) fun name(): String { return "ri" }
     }
@@ -115,7 +116,7 @@ access(all) contract World {
     }
 
     access(all) resource V {
-        access(all) event ResourceDestroyed(uuid: UInt64 = self.uuid, bal: Int = self.bal)
+        access(all) event ResourceDestroyed(uuid: UInt64 = self.uuid, bal: Int = self.bal, obal: Int? = self.bal)
         access(all) var bal: Int
         init(_ bal: Int) { self.bal = bal }
     }
